@@ -92,6 +92,7 @@ class Ctx:
         self.last_disk = None
         self.last_wf = None
         self.note = None
+        self.soft = False
 
     @property
     def model(self):
@@ -101,9 +102,17 @@ class Ctx:
         self.h.update(repr(parts).encode('utf-8'))
         self.h.update(b'\n')
 
-    def violate(self, sig, detail=''):
-        self.violations.append({'sig': [str(s) for s in sig], 'detail': str(detail)[:2000]})
-        self.status = 'violation'
+    def violate(self, sig, detail='', fatal=True):
+        """fatal=False: an image-level anomaly that does not make the run's
+        state diverge from the model; the run goes on (each signature once)."""
+        sig = [str(s) for s in sig]
+        if any(v['sig'] == sig for v in self.violations):
+            return
+        self.violations.append({'sig': sig, 'detail': str(detail)[:2000]})
+        if fatal:
+            self.status = 'violation'
+        else:
+            self.soft = True
 
 
 class Oracle:
@@ -131,15 +140,31 @@ class Oracle:
         ctx.note = 'edit refused: %s %s' % (op['op'], out.sig())
         ctx.stats['inconclusive:edit:%s:%s' % (op['op'], out.etype)] += 1
 
+    # "the written image can always be opened by the library itself" is C01's
+    # (and C02's) business; the other HIST checks end such a run inconclusive
+    judge_write_open = False
+
     def on_write_failed(self, ctx, out):
-        ctx.violate(('write', out.etype, out.where, stem(out.msg)), out.msg)
+        if self.judge_write_open:
+            ctx.violate(('write', out.etype, out.where, stem(out.msg)), out.msg)
+        else:
+            ctx.status = 'inconclusive'
+            ctx.note = 'write failed: %s' % (out.sig(),)
+            ctx.stats['inconclusive:write:%s' % out.etype] += 1
 
     def on_open_failed(self, ctx, out):
-        ctx.violate(('open', out.etype, out.where, stem(out.msg)), out.msg)
+        if self.judge_write_open:
+            ctx.violate(('open', out.etype, out.where, stem(out.msg)), out.msg)
+        else:
+            ctx.status = 'inconclusive'
+            ctx.note = 'open failed: %s' % (out.sig(),)
+            ctx.stats['inconclusive:open:%s' % out.etype] += 1
 
 
 def result_of(ctx, extra=None):
     m = ctx.model
+    if ctx.status == 'ok' and ctx.soft:
+        ctx.status = 'violation'
     r = {
         'status': ctx.status,
         'violations': ctx.violations,
